@@ -55,6 +55,10 @@ func stressMain(args []string) {
 		cancelWakeScenario(args[1:])
 		return
 	}
+	if len(args) > 0 && args[0] == "delayhook" {
+		delayHookScenario(args[1:])
+		return
+	}
 	if len(args) > 0 && args[0] == "bulk" {
 		bulkScenario(args[1:])
 		return
@@ -916,4 +920,130 @@ func bulkScenario(args []string) {
 		return
 	}
 	fmt.Printf("ok scenario=bulk-order sizes=%v variants=%d noise=%v\n", sizes, 4*len(sizes), time.Duration(noise.Load()))
+}
+
+// helem is an element whose Delay() can be hooked: while the hook is armed, the FIRST Delay() call
+// (of any helem) fires it once: it tells the helper goroutine to go and then takes a fixed 30 ms
+// (it does NOT wait for the helper) before it returns the ordinary value.
+type helem struct {
+	id       int
+	deadline time.Time
+	hook     *delayHook
+}
+
+type delayHook struct {
+	armed atomic.Bool
+	goCh  chan struct{}
+}
+
+func (e helem) Delay() time.Duration {
+	if h := e.hook; h != nil && h.armed.CompareAndSwap(true, false) {
+		close(h.goCh)
+		time.Sleep(30 * time.Millisecond)
+	}
+	return e.deadline.Sub(verifhook.Now())
+}
+
+// delayHookScenario is the directed C09 scenario "enqueue-during-delay" in REAL time:
+//
+//	c08-dq-stress delayhook <seed> [rounds]
+//
+// Each round (unbounded and capacity 2): the queue holds one element due in 4 s; the hook is armed; a
+// consumer calls Dequeue: its `delay := val.Delay()` on the head fires the hook, a helper goroutine
+// Enqueues an ALREADY EXPIRED element while the consumer is inside Delay() (on the unchanged code the
+// helper waits for the mutex until the consumer has fetched its signal channel and unlocked).  The
+// consumer's Dequeue must return the expired element within 1.5 s of the helper's Enqueue having
+// returned (the head is due only after 4 s).  Otherwise "VIOLATION lost-wakeup:dequeue: ..." with the
+// round and the timings (goroutine dump on stderr).  Replay = the command line.
+func delayHookScenario(args []string) {
+	geti := func(i, def int) int {
+		if len(args) > i {
+			if v, err := strconv.Atoi(args[i]); err == nil {
+				return v
+			}
+		}
+		return def
+	}
+	seed := int64(geti(0, 1))
+	rounds := geti(1, 2)
+	const bound = 1500 * time.Millisecond
+	verifhook.SetMode(verifhook.Chaos)
+	r := rand.New(rand.NewSource(seed*613 + 11))
+	n := 0
+	for round := 0; round < rounds; round++ {
+		for _, capacity := range []int{0, 2} {
+			n++
+			where := fmt.Sprintf("scenario enqueue-during-delay seed=%d round=%d capacity=%d", seed, round, capacity)
+			q := queue.NewDelayQueue[helem](capacity)
+			hook := &delayHook{goCh: make(chan struct{})}
+			far := helem{id: 1, deadline: time.Now().Add(4 * time.Second), hook: hook}
+			if err := q.Enqueue(context.Background(), far); err != nil {
+				fmt.Printf("VIOLATION crash: %s: Enqueue of the head failed: %v\n", where, err)
+				return
+			}
+			type hres struct {
+				at  time.Time
+				err error
+			}
+			helperDone := make(chan hres, 1)
+			go func() {
+				<-hook.goCh
+				x := helem{id: 2, deadline: time.Now().Add(-time.Duration(1+r.Intn(20)) * time.Millisecond), hook: hook}
+				err := q.Enqueue(context.Background(), x)
+				helperDone <- hres{time.Now(), err}
+			}()
+			ctx, cancel := context.WithTimeout(context.Background(), 8*time.Second)
+			type cres struct {
+				v   helem
+				err error
+				at  time.Time
+			}
+			out := make(chan cres, 1)
+			hook.armed.Store(true) // the head is in the queue, the next Delay() call is the consumer's
+			t0 := time.Now()
+			go func() {
+				v, err := q.Dequeue(ctx)
+				out <- cres{v, err, time.Now()}
+			}()
+			fail := func(kind, msg string) {
+				buf := make([]byte, 1<<20)
+				k := runtime.Stack(buf, true)
+				fmt.Printf("VIOLATION %s: %s: %s\n", kind, where, msg)
+				fmt.Fprintf(os.Stderr, "%s\n", buf[:k])
+				cancel()
+			}
+			var h hres
+			select {
+			case h = <-helperDone:
+			case <-time.After(5 * time.Second):
+				fail("hang", "the helper's Enqueue of the expired element did not return within 5 s")
+				return
+			}
+			if h.err != nil {
+				fail("hang", fmt.Sprintf("the helper's Enqueue failed: %v", h.err))
+				return
+			}
+			select {
+			case c := <-out:
+				lat := c.at.Sub(h.at)
+				switch {
+				case c.err != nil:
+					fail("lost-wakeup:dequeue", fmt.Sprintf("Dequeue returned %v %v after an expired element was enqueued", c.err, lat.Round(time.Millisecond)))
+					return
+				case c.v.id != 2:
+					fail("early", fmt.Sprintf("Dequeue returned the head due in 4 s after %v", c.at.Sub(t0).Round(time.Millisecond)))
+					return
+				case lat > bound:
+					fail("lost-wakeup:dequeue", fmt.Sprintf("the expired element was delivered %v after its Enqueue returned", lat.Round(time.Millisecond)))
+					return
+				}
+			case <-time.After(time.Until(h.at) + bound):
+				fail("lost-wakeup:dequeue", fmt.Sprintf("an already expired element was enqueued (Enqueue returned %v after the Dequeue started, while the consumer was evaluating the head's Delay()); %v later the Dequeue is still blocked on the timer of the head due in 4 s (Len=%d)",
+					h.at.Sub(t0).Round(time.Millisecond), bound, q.VerifLen()))
+				return
+			}
+			cancel()
+		}
+	}
+	fmt.Printf("ok scenario=enqueue-during-delay rounds=%d\n", n)
 }
